@@ -95,12 +95,23 @@ LegalCalls ==
 ItNewCalls == {[op |-> "ItNew", a |-> 1, x |-> 1, rcp |-> kd, j |-> j] : kd \in {"fwd", "rev", "many"}, j \in {0, 3, 5, 9}}
               \cup {[op |-> "ItNew", a |-> 1, x |-> 1, rcp |-> "unset", c0 |-> p[1], c1 |-> p[2], j |-> 0] :
                        p \in {q \in CellEnds \X CellEnds : q[1] <= q[2]}}
-ItStepCalls == {[op |-> "ItTake", a |-> 1], [op |-> "ItPeek", a |-> 1]}
+\* (v is ignored by the harness: it only makes ItTake as likely as the many ItAdvance variants under -simulate)
+ItStepCalls == {[op |-> "ItTake", a |-> 1, v |-> n] : n \in 1..8} \cup {[op |-> "ItPeek", a |-> 1, v |-> n] : n \in 1..2}
                \cup {[op |-> "ItAdvance", a |-> 1, c0 |-> cl, side |-> sd] : cl \in 1..U.ncell, sd \in {0, 1}}
 OneShotCalls(x) ==
   {[op |-> "IterCb", x |-> x, rcp |-> w, c0 |-> cl] : w \in {"Iterate", "Values", "Backward"}, cl \in 1..U.ncell}
   \cup {[op |-> "IterCb", x |-> x, rcp |-> "Unset", c0 |-> p[2], c1 |-> p[1]] : p \in {q \in (1..U.ncell) \X (1..U.ncell) : q[1] <= q[2]}}
   \cup {[op |-> "Ranges", x |-> x, v |-> v] : v \in {0, 1, 2, 3}}
+
+\* copy-on-write scenarios (C07/C08/C02): slot 1 is built with copy-on-write, slot 2 is its clone (sharing every
+\* chunk), slot 3 an independent operand; then private writes and in-place operations at whole-cell (= whole-chunk)
+\* granularity, in every order the simulation draws
+CowWrites == {[op |-> o, x |-> s, c0 |-> cl, c1 |-> cl + 1] : o \in {"AddRange", "RemoveRange", "Flip"}, s \in {1, 2}, cl \in 1..U.ncell}
+CowOps == {[op |-> o, x |-> s, y |-> 3] : o \in BinOps, s \in {1, 2}}
+          \cup {[op |-> o, x |-> s, c0 |-> p[1], c1 |-> p[2]] : o \in {"RemoveRange", "Flip", "AddRange"}, s \in {1, 2},
+                   p \in {q \in CellEnds \X CellEnds : q[1] < q[2]}}
+          \cup {[op |-> "Clone", dst |-> 4, x |-> s] : s \in {1, 2}}
+          \cup {[op |-> o, dst |-> 4, x |-> s, y |-> 3] : o \in StatOps, s \in {1, 2}}
 
 AggOps == {"FastOr", "HeapOr", "ParOr", "ParHeapOr", "FastAnd", "ParAnd", "HeapXor"}
 Lists == UNION {[1..n -> 1..4] : n \in 0..MaxList}
@@ -113,12 +124,16 @@ AggCalls ==
 Eff(c, k) == IF k.op \in {"SelectAuto", "ItNew", "ItTake", "ItPeek", "ItAdvance", "IterCb", "Ranges"} THEN c ELSE Effect(U, c, k)
 
 Init ==
-  /\ hist = <<>>
+  /\ (Mode # "cow" => hist = <<>>)
   /\ CASE Mode = "pairs" -> \E S1, S2 \in SUBSET A : content = [Empty EXCEPT ![1] = S1, ![2] = S2]
        [] Mode \in {"step", "serial", "iter", "oneshot"} -> \E S1 \in SUBSET A : content = [Empty EXCEPT ![1] = S1]
        [] Mode = "legal" -> content = Empty
        [] Mode = "agg" -> \E S1, S2 \in SUBSET A : content = [Empty EXCEPT ![1] = S1, ![2] = S2, ![3] = A]
        [] Mode = "hist" -> content = Empty
+       [] Mode = "cow" -> \E S1, S3 \in SUBSET A :
+                            /\ content = [Empty EXCEPT ![1] = S1, ![2] = S1, ![3] = S3]
+                            /\ hist = <<[op |-> "Build", dst |-> 1, as |-> SetToSeq(S1), rcp |-> "Rc"],
+                                        [op |-> "Clone", dst |-> 2, x |-> 1], Build(3, S3)>>
 
 Calls ==
   CASE Mode = "pairs" -> PairCalls
@@ -128,6 +143,7 @@ Calls ==
     [] Mode = "oneshot" -> OneShotCalls(1)
     [] Mode = "iter" -> IF hist = <<>> THEN ItNewCalls ELSE ItStepCalls
     [] Mode = "legal" -> LegalCalls
+    [] Mode = "cow" -> IF Len(hist) % 2 = 1 THEN CowWrites ELSE CowOps
     [] Mode = "hist" -> MutCalls(1) \cup MutCalls(2) \cup
                         {[op |-> o, x |-> x, y |-> 3 - x] : o \in BinOps, x \in {1, 2}}
 
@@ -137,7 +153,7 @@ Next ==
           /\ content' = Eff(content, k)
           /\ hist' = Append(hist, k)
   \/ \* hist / iter mode: a completed history is emitted exactly once, by the step that closes it
-     /\ Mode \in {"hist", "iter"} /\ Len(hist) = Depth
+     /\ Mode \in {"hist", "iter", "cow"} /\ Len(hist) = Depth
      /\ PrintT(ToJson([st |-> Struct, calls |-> (IF Mode = "iter" THEN <<Build(1, content[1])>> ELSE <<>>) \o hist]))
      /\ hist' = Append(hist, [op |-> "End"])
      /\ content' = content
@@ -155,7 +171,7 @@ Prefix(c) ==
 
 \* one line per transition (one-step modes) -- used as ACTION_CONSTRAINT, always TRUE
 EmitStep ==
-  \/ Mode \in {"hist", "iter"}
+  \/ Mode \in {"hist", "iter", "cow"}
   \/ PrintT(ToJson([st |-> Struct, calls |-> Prefix(content) \o hist']))
 
 \* ---- properties checked on the model ----------------------------------------------------------------
